@@ -96,8 +96,8 @@ class DependencyBuilder:
     ) -> Dependencies:
         results = Dependencies()
         for dependant in dependant_types:
-            if isinstance(dependant, pydsdl.UnionType):
-                # Unions always require integer for the tag field.
+            parts = (dependant.request_type, dependant.response_type) if isinstance(dependant, pydsdl.ServiceType) else (dependant,)
+            if any(isinstance(x, pydsdl.UnionType) for p in parts for x in (p, p.inner_type)):  # incl. delimited unions
                 results.uses_integer = True
                 results.uses_union = True
             cls._extract_dependent_types(cls._extract_data_types(dependant), transitive, results)
